@@ -294,9 +294,36 @@ fn session(c: &Corpus, which: Impl, compressed: bool, style: u64, total_bytes: u
         const BIG: [&str; 7] = ["MAL", "MCI", "AXM", "NLP", "IPB", "PLH", "HOS"];
         let lay = if big { c.spec.packet(BIG[r.usize_below(BIG.len())]) } else { r.pick(c.kinds()) };
         let o = GenOpts { text: TextMode::Ascii, max_list: if big { None } else { Some(20) }, boundary: 4, hostile: false };
-        let Ok((_, pk)) = c.packet(r, lay, &o) else { continue };
+        let pk = if big && compressed && wi % 2 == 0 {
+            // frames beyond 508 bytes exist only with element counts above the protocol's usual maxima (the library
+            // does not cap these kinds): replicate the element of a one-element reference frame
+            const SHAPES: [(&str, usize, usize); 5] = [("MCI", 4, 28), ("NLP", 4, 6), ("AXM", 8, 8), ("PLH", 4, 4), ("HOS", 4, 40)];
+            let (kind, hdr, el) = SHAPES[r.usize_below(SHAPES.len())];
+            let o1 = GenOpts { text: TextMode::Ascii, max_list: Some(1), boundary: 4, hostile: false };
+            let Some((_, f1)) = (0..50).find_map(|_| c.ref_frame(r, c.spec.packet(kind), &o1, true).filter(|(_, f)| f[3] == 1)) else { continue };
+            let nmax = ((1020 - hdr) / el).min(255);
+            let nmin = (508 - hdr) / el + 1;
+            let n = nmin + r.usize_below(nmax - nmin + 1);
+            let mut f = f1[..hdr].to_vec();
+            for _ in 0..n {
+                f.extend_from_slice(&f1[hdr..hdr + el]);
+            }
+            while f.len() % 4 != 0 {
+                f.push(0);
+            }
+            f[3] = n as u8;
+            f[0] = (f.len() / 4) as u8;
+            match real_decode(&f, true) {
+                Dec::Packet(q, _) => q,
+                _ => continue,
+            }
+        } else {
+            let Ok((_, pk)) = c.packet(r, lay, &o) else { continue };
+            pk
+        };
         let Enc::Ok(enc) = real_encode(&pk, compressed) else { continue };
         p.evaluations += 1;
+        p.count(if enc.len() > 508 { "written_frames_over_508_bytes" } else { "written_frames_up_to_508_bytes" }, 1);
         if let Err(e) = conn.write(pk) {
             p.violation(format!("C08/{}/write-failed", which.name()), format!("{label}: write of a {}-byte frame failed: {e}", enc.len()), json!({"impl": which.name()}));
             break;
